@@ -119,14 +119,18 @@ func TestEnumerateFaultPoints(t *testing.T) {
 	if rec.ReplayOnly() {
 		return
 	}
+	// quick: every k for the four probes with pending defers / panics in flight in the
+	// plain configuration, every stride-th k elsewhere (the offset rotates with the seed,
+	// the probe and the configuration); thorough: every k everywhere.
 	configs := []config{
-		{false, "eval", "hook", 1, false},
-		{true, "eval", "hook", rec.Scale(3, 1), false},
-		{false, "repl", "hook", rec.Scale(3, 1), false},
-		{true, "debug", "hook", rec.Scale(2, 1), true},
-		{true, "debug", "debugger", rec.Scale(5, 1), true},
-		{false, "debug", "hook", rec.Scale(4, 1), true},
+		{false, "eval", "hook", rec.Scale(3, 1), false},
+		{true, "eval", "hook", rec.Scale(5, 1), false},
+		{false, "repl", "hook", rec.Scale(5, 1), false},
+		{true, "debug", "hook", rec.Scale(4, 1), true},
+		{true, "debug", "debugger", rec.Scale(10, 1), true},
+		{false, "debug", "hook", rec.Scale(8, 1), true},
 	}
+	full := map[string]bool{"defers": true, "recover": true, "selective-recover": true, "panic-in-defer": true}
 	idx, mine := 0, 0
 	complete := true
 	for ci, cf := range configs {
@@ -147,13 +151,17 @@ func TestEnumerateFaultPoints(t *testing.T) {
 			if n == 0 && cf.fault == "hook" {
 				t.Fatalf("probe %s makes no hook call (%s)", p.Name, o)
 			}
-			if cf.stride > 1 {
+			stride := cf.stride
+			if ci == 0 && full[p.Name] {
+				stride = 1
+			}
+			if stride > 1 {
 				complete = false
 			}
-			off := int(rec.Seed()+int64(pi)+int64(ci)) % cf.stride
+			off := int(rec.Seed()+int64(pi)+int64(ci)) % stride
 			// k = n+1 is the control: no fault fires, the evaluation completes
 			for k := 1; k <= n+1; k++ {
-				if k%cf.stride != off && k != n+1 {
+				if k%stride != off && k != n+1 {
 					continue
 				}
 				idx++
@@ -193,7 +201,7 @@ func TestEnumerateFaultPoints(t *testing.T) {
 func TestFaultSequences(t *testing.T) {
 	counts := map[string][2]int{}
 	refs := map[string]*inj.Ref{}
-	rec.Check(t, rec.Scale(12, 120), func(t *rapid.T) {
+	rec.Check(t, rec.Scale(6, 120), func(t *rapid.T) {
 		p := rapid.SampledFrom(inj.C12Probes).Draw(t, "probe")
 		c := inj.Case{Probe: p, Fault: "hook"}
 		c.OptDebugger = rapid.Bool().Draw(t, "optdbg")
